@@ -1,7 +1,7 @@
 """C01 - Accepted IDL yields glue code that compiles, or a documented diagnostic."""
 import copy, json, random, re
 from concurrent.futures import ThreadPoolExecutor
-from .. import gen_idl, compile_judge
+from .. import gen_idl, compile_judge, kjinja
 from ..common import run_impl
 from .c17 import FULL
 
@@ -39,7 +39,7 @@ def options(kind):
 def user_headers(tree):
     out = []
     for rel, text in tree.items():
-        m = re.search(r'(?s)struct (\w+);\s*struct (\w+) \{', text) if rel.startswith('out/cpp/') and rel.endswith('_base.hpp') else None
+        m = re.search(r'(?s)struct (\w+);.*?\bstruct (?:\[\[[^\]]*\]\]\s*)?(\w+)\s*\{', text) if rel.startswith('out/cpp/') and rel.endswith('_base.hpp') else None
         if not m:
             continue
         ns = re.findall(r'(?m)^namespace ([\w:]+) \{', text)
@@ -59,6 +59,11 @@ def classify(i):
             return 'async-java-proxy-result-by-reference'
         if re.search(r'declaration of ‘[^’]*’ shadows a parameter', msg) or 'redeclaration of' in msg or 'conflicting declaration' in msg:
             return 'parameter-name-clashes-with-template-local'
+        # the same clash inside a lambda: the parameter hides the template's local `data` / `jni` / ... and the error is a type error
+        lt = i.get('line_text') or ''
+        if i.get('lang') == 'jni' and re.search(r'\b(data|jni|jret|ref|handle|future|result|cause)\b', lt) and \
+           re.search(r'\b(data|jni|jret|ref|handle|future|result|cause)\s*:', i.get('idl') or ''):
+            return 'parameter-name-clashes-with-template-local'
         if 'hashtable' in msg or 'hash<' in msg or '_Hashtable' in msg:
             return 'unhashable-set-or-map-key'
         if re.search(r"operator(<|==)’? ?\(operand types|no match for ‘operator(<|==|>)", msg):
@@ -68,8 +73,97 @@ def classify(i):
     return 'other'
 
 
+RICH = ('''# A kind.
+# Second *line* with `code`.
+kind = enum {
+    # first item
+    a_b;
+    # @deprecated gone
+    c;
+}
+# @deprecated use kind
+opts = flags { x_1; # doc
+ y; none_of = none; all_of = all; }
+# a point
+point = record {
+    # the x
+    x: i32;
+    # @deprecated old
+    y_z: f64?;
+    tags: list<string>; o: opts; k: kind?; cb_f: cb; when: date; blob: binary; m: map<string, i64>;
+} deriving (eq)
+small = record { a: i8; b: string; } deriving (eq, ord)
+empty = record { } deriving (eq)
+cb = function (code: i32, msg: string?) -> bool;
+thrower = function (p: point) throws oops;
+# errors
+oops = error {
+    # bad
+    bad_thing(code: i16 why: string?);
+    # @deprecated old
+    other;
+    third(p: point k: kind);
+}
+peer = interface +cpp +java +objc +cppcli { ping(); }
+# A service.
+# @deprecated use other
+svc = interface +cpp +java +objc +cppcli {
+    # Fetches.
+    # @param user_name the name
+    # @returns the text
+    # @throws bad_thing when offline
+    fetch_all(user_name: string, retry_count: i32?) throws oops -> string;
+    const get_it() -> point?;
+    async later(p: point, k: kind) -> list<string>;
+    async fire();
+    put(x: peer?, c: cb, o: opts);
+    # @deprecated gone
+    old_one();
+    property flag: bool;
+}
+stat = interface +cpp { static make(a: i32) -> peer; static nothing(); }
+jonly = interface +java { on_event(e: kind, p: point?) -> bool; }
+''')
+
+
+def all_loops(ctx):
+    """K-jinja/all-loops: every for-loop over type_def.<members> of every per-type template that the TIR interpreter can evaluate"""
+    ok, res = run_impl('jinja_frag', {'list_loops': True}, timeout=300)
+    if not ok:
+        ctx.broken.append({'kind': 'harness', 'name': 'jinja_frag list_loops', 'detail': str(res)[-1000:]}); return
+    loops = res['loops']
+    frags = [{k: l[k] for k in ('gen', 'template', 'attr', 'index', 'decl_class')} for l in loops if not l['unsupported']]
+    for fr in frags:
+        if fr['attr'] == 'flags' and fr['gen'] in ('cpp', 'objc', 'cppcli') and fr['template'].startswith('header/'):
+            fr['counter'] = True       # these loops run inside {% set counter = namespace(value=0) %}
+    skipped = {}
+    for l in loops:
+        for u in l['unsupported']:
+            skipped[u] = skipped.get(u, 0) + 1
+    cases = []
+    for k_ in ((0, 1) if ctx.thorough else (0,)):
+        o = options(k_)
+        o['generate']['support_lib_sources'] = False
+        cases.append({'files': {'main.pydjinni': RICH}, 'root': 'main.pydjinni', 'options': o, 'fragments': frags})
+    mism, flat = kjinja.run(ctx, 'c01loops', cases)
+    if flat is None:
+        return
+    errs = [f for f in flat if f.get('error')]
+    for f in errs[:5]:
+        ctx.add_violation({'kind': 'template-fragment-raises', 'generator': f['fragment']['gen'], 'template': f['fragment']['template']},
+                          'rendering the loop %s[%s] of %s/%s for %s raised %s' % (f['fragment']['attr'], f['fragment']['index'], f['fragment']['gen'],
+                                                                                      f['fragment']['template'], f['decl'], f['error']), {'fragment': f['fragment'], 'idl': RICH})
+    ctx.add_corr('K-jinja/all-loops', len(flat), len(frags), [{'fragment': m['fragment'], 'decl': m['decl'], 'impl_text': m['text']} for m in (mism or [])],
+                 [{'fragment': flat[0]['fragment'], 'text': flat[0]['text']}] if flat else [],
+                 {'loops_in_templates': len(loops), 'evaluated': len(frags), 'not_evaluated_because': skipped, 'renders': len(flat)},
+                 'every for-loop over the members of type_def (items, flags, fields, methods, properties, parameters, error_codes) in every per-type '
+                 'template of all six generators that contains no macro / method call: rendered by Jinja on the real marshalling objects of a program '
+                 'with every declaration kind, comments and deprecations vs the TIR interpreter on the template translated on this run')
+
+
 def run(ctx):
     r = random.Random(ctx.rng.random())
+    all_loops(ctx)
     n = ctx.n(22, 160)
     cases, meta = [], []
     for i in range(n):
@@ -169,6 +263,7 @@ def run(ctx):
                 ctx.add_violation({'kind': 'unrendered-marker', 'generator': i['generator']}, '%s contains a template marker: %s' % (i['file'], i['line']),
                                   {'issue': i, 'files': c['files']})
             else:
+                i['idl'] = ' '.join(c['files'].values())
                 cause = classify(i) if m != 'default-naming-probe' else 'jni-header-includes-itself'
                 sig = {'kind': 'does-not-compile', 'lang': i['lang'], 'cause': cause}
                 if cause == 'other':
